@@ -688,7 +688,7 @@ TEMPLATES = [
 IG_OPTS = [('sgd', 0.1), ('momentum', 0.1, 0.9), ('adam', 0.05)]
 # base optimizers whose update depends on the parameter VALUE (decoupled weight decay): an ignored parameter handed to them with
 # a zero gradient would still move. Judged against the base optimizer on the pruned tree and by bit-identity (no NumPy oracle).
-IG_DECAY_OPTS = [('adamw', 0.05, 0.1), ('sgd+decay', 0.1, 0.05), ('adafactor-wd', 0.05, 0.01)]
+IG_DECAY_OPTS = [('adamw', 0.05, 0.1), ('sgd+decay', 0.1, 0.05), ('adafactor-wd', 0.05, 0.01), ('adam+decay+globalclip', 0.05, 0.3)]
 
 
 def ignore_configs(thorough):
@@ -708,10 +708,11 @@ def ignore_configs(thorough):
     for s, sub in enumerate(dict.fromkeys(subsets)):
       for o in range(3):
         out.append((t, sub, IG_OPTS[(o + s + t) % 3] if not thorough else IG_OPTS[o]))
-      out.append((t, sub, IG_DECAY_OPTS[(s + t) % 3]))
+      out.append((t, sub, IG_DECAY_OPTS[(s + t) % 4]))
+      out.append((t, sub, IG_DECAY_OPTS[3]))
       if thorough:
-        out.append((t, sub, IG_DECAY_OPTS[(s + t + 1) % 3]))
-        out.append((t, sub, IG_DECAY_OPTS[(s + t + 2) % 3]))
+        out.append((t, sub, IG_DECAY_OPTS[(s + t + 1) % 4]))
+        out.append((t, sub, IG_DECAY_OPTS[(s + t + 2) % 4]))
   return out
 
 
@@ -724,6 +725,11 @@ def ignore_base_optimizer(fedjax, spec):
     return fedjax.optimizers.create_optimizer_from_optax(optax.chain(optax.add_decayed_weights(spec[2]), optax.sgd(spec[1])))
   if k == 'adafactor-wd':
     return fedjax.optimizers.adafactor(learning_rate=spec[1], weight_decay_rate=spec[2])
+  if k == 'adam+decay+globalclip':
+    # leaves coupled THROUGH THE PARAMETERS: the decay term of every parameter the optimizer sees enters one global norm, which
+    # rescales all updates -- an ignored parameter must not be among them
+    return fedjax.optimizers.create_optimizer_from_optax(optax.chain(
+        optax.scale_by_adam(), optax.add_decayed_weights(spec[2]), optax.clip_by_global_norm(0.5), optax.scale(-spec[1])))
   return toy.fedjax_optimizer(spec)
 
 
@@ -764,7 +770,7 @@ def run_ignore(ctx, fedjax, jax, jnp, cfg, rng, cache):
   cur = jp                       # what the wrapped optimizer returned last (fed back as-is)
   bp = toy.tmap(jnp.asarray, prune(params0, ignored))
   bst = base.init(bp)
-  decay = spec[0] in ('adamw', 'sgd+decay', 'adafactor-wd')
+  decay = spec[0] in ('adamw', 'sgd+decay', 'adafactor-wd', 'adam+decay+globalclip')
   if decay:
     ctx.count('ignore:value-dependent-base-optimizer')
   np_opt = None if decay else toy.NpOpt(spec, np.float64)
